@@ -122,11 +122,18 @@ ValidDir(d) == d \in {"H->E", "H<-E", "H<->E"}
 Pad4(s) == [i \in 1..4 |-> IF i <= Len(s) THEN s[i] ELSE 0]
 PropC12(e) ==
   /\ e.ev = "ctor" =>
-       LET c == CodeOf(e.f)  dom == ArgInDomain(c, e.arg) IN
-       /\ e.res.outcome = (IF dom THEN "ok" ELSE "refused")
-       /\ e.fillres.outcome = e.res.outcome                            \* a fill is refused exactly as the factory refuses
-       /\ ("fillres2" \in DOMAIN e => (e.fillres2.outcome = e.res.outcome /\ (dom => e.fillres2.bytes = e.res.bytes)))
-       /\ dom => /\ NormEl(e.res.abs.e[e.pos + 1]) = NormEl(e.arg)      \* stored
+       LET c == CodeOf(e.f)  dom == ArgInDomain(c, e.arg)
+           \* an argument of a Go type the factory is not documented to take (a float for an integer item) may be refused
+           \* whatever its value; if it is taken, it is taken like any other
+           foreign == "foreign" \in DOMAIN e IN
+       /\ IF foreign THEN (e.res.outcome = "refused" \/ dom) /\ (e.fillres.outcome = "refused" \/ dom)
+          ELSE e.res.outcome = (IF dom THEN "ok" ELSE "refused")
+       /\ foreign \/ e.fillres.outcome = e.res.outcome                 \* a fill is refused exactly as the factory refuses
+       /\ (foreign /\ e.fillres.outcome = "ok") => (NormEl(e.fillres.abs.e[1]) = NormEl(e.arg)
+                                                     /\ e.fillres.bytes = EncItem(ByteLevel([f |-> e.f, e |-> <<e.arg>>])))
+       /\ (~foreign /\ "fillres2" \in DOMAIN e) => (e.fillres2.outcome = e.res.outcome /\ (dom => e.fillres2.bytes = e.res.bytes))
+       /\ (dom /\ e.res.outcome = "ok" /\ (foreign => e.fillres.outcome = "ok")) =>
+                 /\ NormEl(e.res.abs.e[e.pos + 1]) = NormEl(e.arg)      \* stored
                  /\ Words(e.res.string)[2 + e.pos] = ElemText(e.arg)    \* printed
                  /\ e.res.bytes = EncItem(ByteLevel([f |-> e.f, e |-> (IF e.pos = 1 THEN <<e.first, e.arg>> ELSE <<e.arg>>)
                                                                         \o (IF "none" \in DOMAIN e.after THEN <<>> ELSE <<e.after>>)]))
